@@ -42,8 +42,11 @@ let show_event (alen : int) (e : event) : string =
     Printf.sprintf "D%d@%d/%s/%s" (int_of_z tid) (alen - List.length msg) (z_to_string o) (lochex l)
   | EvError -> "ERR"
 
-let run (t : tree) (addr : z list) (tys : z list) (withloc : bool) : string =
-  let st = dispatch t addr tys withloc (z_of_int 1) in
+(* stale: what the location buffer held before the root dispatch (a reused buffer) *)
+let run ?stale (t : tree) (addr : z list) (tys : z list) (withloc : bool) : string =
+  let st = match stale with
+    | Some s when withloc -> dispatch_reused t addr tys s (z_of_int (-7)) (z_of_int 1)
+    | _ -> dispatch t addr tys withloc (z_of_int 1) in
   let evs = List.rev_map (show_event (List.length addr)) st.log in
   let body = if evs = [] then "-" else String.concat ";" evs in
   let s = Printf.sprintf "%s m=%d obj=%s" body (int_of_z st.matches) (z_to_string st.obj) in
@@ -55,13 +58,14 @@ let rec walk (t : tree) (f : table -> unit) =
 
 let () = each_line (fun line ->
   match String.split_on_char ' ' line with
-  | "disp" :: tr :: ha :: ht :: _ ->
+  | "disp" :: tr :: ha :: ht :: rest ->
     (try
       let tk = Array.of_list (String.split_on_char '.' tr) in
       let k = ref 0 in
       let t = parse tk k in
       let addr = bytes_of_hex ha and tys = bytes_of_hex ht in
-      let l = run t addr tys true and n = run t addr tys false in
+      let stale = match rest with _ :: h :: _ when h <> "-" -> Some (bytes_of_hex h) | _ -> None in
+      let l = run ?stale t addr tys true and n = run t addr tys false in
       let rs = ref [] in
       walk t (fun tb ->
         let r = match tables_of tb with
